@@ -1,3 +1,156 @@
-From TLXV Require Import C18.Defs C18.SV.
-Theorem C18_placeholder : True. Proof. exact I. Qed.
-Print Assumptions C18_placeholder.
+(** C18 — StringView answers every query exactly like std::string_view.
+    Statements only; proofs live in C18/SVProofs.v, C18/FindProofs.v, C18/Lemmas.v, C18/Refute.v.
+    SV.f = the model of tlx::StringView::f (coq/C18/SV.v, tied to /repo by the three-way run of checks/C18.py);
+    StdSV.f = the definition of std::string_view::f in [string.view] (coq/C18/StdSV.v).
+    [size h < npos] / [size h <= npos]: the view fits size_type. Position/count arguments range over all of N. *)
+From Coq Require Import List NArith ZArith Bool.
+From TLXV Require Import C18.Defs C18.StdSV C18.Lemmas C18.SV C18.AlgoLemmas C18.SVProofs C18.FindProofs C18.Refute.
+Import ListNotations.
+Open Scope N_scope.
+
+(* ---- meaning of the specification vocabulary *)
+Theorem C18_lowest_is_least : forall P bound, (forall x, P x = true -> x < bound) ->
+  let r := lowest P bound in
+  (r = npos /\ forall y, P y = false) \/ (P r = true /\ forall y, P y = true -> r <= y).
+Proof. exact lowest_spec. Qed.
+Print Assumptions C18_lowest_is_least.
+
+Theorem C18_highest_is_greatest : forall P bound, (forall x, P x = true -> x < bound) ->
+  let r := highest P bound in
+  (r = npos /\ forall y, P y = false) \/ (P r = true /\ forall y, P y = true -> y <= r).
+Proof. exact highest_spec. Qed.
+Print Assumptions C18_highest_is_greatest.
+
+Theorem C18_size_type_arithmetic : forall a b, a < two64 -> b < two64 ->
+  wsub a b = (a + two64 - b) mod two64 /\ wadd a b = (a + b) mod two64.
+Proof. exact size_type_arithmetic. Qed.
+Print Assumptions C18_size_type_arithmetic.
+
+(* ---- element access with bounds checking, prefix / suffix removal, conversion, substr, copy *)
+Theorem C18_sv_eq_std_at : forall h pos, SV.at_ h pos = StdSV.at_ h pos.
+Proof. exact sv_eq_std_at. Qed.
+Print Assumptions C18_sv_eq_std_at.
+
+Theorem C18_sv_eq_std_index_front_back : forall h,
+  (forall pos, pos < size h -> SV.index h pos = StdSV.index h pos) /\
+  (0 < size h -> SV.front h = StdSV.front h /\ SV.back h = StdSV.back h).
+Proof. exact sv_eq_std_index_front_back. Qed.
+Print Assumptions C18_sv_eq_std_index_front_back.
+
+Theorem C18_sv_eq_std_remove_prefix : forall h n, n <= size h -> SV.remove_prefix h n = StdSV.remove_prefix h n.
+Proof. exact sv_eq_std_remove_prefix. Qed.
+Print Assumptions C18_sv_eq_std_remove_prefix.
+
+Theorem C18_sv_eq_std_remove_suffix : forall h n, n <= size h -> SV.remove_suffix h n = StdSV.remove_suffix h n.
+Proof. exact sv_eq_std_remove_suffix. Qed.
+Print Assumptions C18_sv_eq_std_remove_suffix.
+
+Theorem C18_sv_eq_std_to_string : forall h, SV.to_string h = StdSV.to_string h.
+Proof. exact sv_eq_std_to_string. Qed.
+Print Assumptions C18_sv_eq_std_to_string.
+
+Theorem C18_sv_eq_std_substr : forall h pos n, SV.substr h pos n = StdSV.substr h pos n.
+Proof. exact sv_eq_std_substr. Qed.
+Print Assumptions C18_sv_eq_std_substr.
+
+Theorem C18_sv_eq_std_copy : forall h buf n pos,
+  (pos <= size h -> N.min n (size h - pos) <= size buf) ->
+  SV.copy h buf n pos = StdSV.copy h buf n pos.
+Proof. exact sv_eq_std_copy. Qed.
+Print Assumptions C18_sv_eq_std_copy.
+
+(* ---- compare (all overloads) and the comparison / relational operators *)
+Theorem C18_sv_eq_std_compare : forall a b, size a <= npos -> SV.compare a b = StdSV.compare a b.
+Proof. exact sv_eq_std_compare. Qed.
+Print Assumptions C18_sv_eq_std_compare.
+
+Theorem C18_sv_eq_std_compare3 : forall h pos1 n1 x, size h <= npos ->
+  SV.compare3 h pos1 n1 x = StdSV.compare3 h pos1 n1 x.
+Proof. exact sv_eq_std_compare3. Qed.
+Print Assumptions C18_sv_eq_std_compare3.
+
+Theorem C18_sv_eq_std_compare5 : forall h pos1 n1 x pos2 n2, size h <= npos ->
+  SV.compare5 h pos1 n1 x pos2 n2 = StdSV.compare5 h pos1 n1 x pos2 n2.
+Proof. exact sv_eq_std_compare5. Qed.
+Print Assumptions C18_sv_eq_std_compare5.
+
+Theorem C18_sv_eq_std_operators : forall a b, size a <= npos ->
+  SV.op_eq a b = StdSV.op_eq a b /\ SV.op_ne a b = StdSV.op_ne a b /\
+  SV.op_lt a b = StdSV.op_lt a b /\ SV.op_gt a b = StdSV.op_gt a b /\
+  SV.op_le a b = StdSV.op_le a b /\ SV.op_ge a b = StdSV.op_ge a b.
+Proof. exact sv_eq_std_operators. Qed.
+Print Assumptions C18_sv_eq_std_operators.
+
+(* ---- starts_with / ends_with *)
+Theorem C18_sv_eq_std_starts_ends_with : forall h x c, size h <= npos ->
+  SV.starts_with h x = StdSV.starts_with h x /\ SV.ends_with h x = StdSV.ends_with h x /\
+  SV.starts_with_char h c = StdSV.starts_with_char h c /\ SV.ends_with_char h c = StdSV.ends_with_char h c.
+Proof. exact sv_eq_std_starts_ends_with. Qed.
+Print Assumptions C18_sv_eq_std_starts_ends_with.
+
+(* ---- the find family *)
+Theorem C18_sv_eq_std_find : forall h s pos, size h < npos -> SV.find h s pos = StdSV.find h s pos.
+Proof. exact sv_eq_std_find. Qed.
+Print Assumptions C18_sv_eq_std_find.
+
+Theorem C18_sv_eq_std_rfind : forall h s pos, size h < npos -> SV.rfind h s pos = StdSV.rfind h s pos.
+Proof. exact sv_eq_std_rfind. Qed.
+Print Assumptions C18_sv_eq_std_rfind.
+
+Theorem C18_sv_eq_std_find_first_of : forall h s pos, size h <= npos ->
+  SV.find_first_of h s pos = StdSV.find_first_of h s pos.
+Proof. exact sv_eq_std_find_first_of. Qed.
+Print Assumptions C18_sv_eq_std_find_first_of.
+
+Theorem C18_sv_eq_std_find_last_of : forall h s pos, size h <= npos ->
+  SV.find_last_of h s pos = StdSV.find_last_of h s pos.
+Proof. exact sv_eq_std_find_last_of. Qed.
+Print Assumptions C18_sv_eq_std_find_last_of.
+
+Theorem C18_sv_eq_std_find_first_not_of : forall h s pos, size h <= npos ->
+  SV.find_first_not_of h s pos = StdSV.find_first_not_of h s pos.
+Proof. exact sv_eq_std_find_first_not_of. Qed.
+Print Assumptions C18_sv_eq_std_find_first_not_of.
+
+Theorem C18_sv_eq_std_find_last_not_of : forall h s pos, size h <= npos ->
+  SV.find_last_not_of h s pos = StdSV.find_last_not_of h s pos.
+Proof. exact sv_eq_std_find_last_not_of. Qed.
+Print Assumptions C18_sv_eq_std_find_last_not_of.
+
+(* ---- overloads: f(const char* s, ..) sees the bytes before the first NUL (traits::length), f(s, pos, n) the first n *)
+Theorem C18_sv_eq_std_overload_adaptors : forall s n, size s < npos ->
+  SV.of_cstr s = StdSV.of_cstr s /\ (n <= size s -> SV.of_ptr_n s n = tabulate (nthN s) n).
+Proof. exact sv_eq_std_overload_adaptors. Qed.
+Print Assumptions C18_sv_eq_std_overload_adaptors.
+
+(* ---- the code as shipped (704fd0b) violates the same statements: concrete witnesses *)
+Theorem C18_copy_shipped_refuted :
+  exists h buf n pos, (pos <= size h -> N.min n (size h - pos) <= size buf) /\
+    SV.copy_shipped h buf n pos = Ok (2, [97; 98; 46]) /\ StdSV.copy h buf n pos = Ok (2, [100; 101; 46]).
+Proof. exact copy_shipped_refuted. Qed.
+Print Assumptions C18_copy_shipped_refuted.
+
+Theorem C18_compare_shipped_refuted :
+  exists a b, size a <= npos /\ SV.compare_shipped a b = 0%Z /\ StdSV.compare a b = (-1)%Z.
+Proof. exact compare_shipped_refuted. Qed.
+Print Assumptions C18_compare_shipped_refuted.
+
+Theorem C18_rfind_shipped_refuted :
+  exists h s pos, size h < npos /\ SV.rfind_shipped h s pos = 2 /\ StdSV.rfind h s pos = 0.
+Proof. exact rfind_shipped_refuted. Qed.
+Print Assumptions C18_rfind_shipped_refuted.
+
+Theorem C18_relational_shipped_refuted :
+  exists a b, size a <= npos /\
+    SV.op_lt_shipped a b = true /\ StdSV.op_lt a b = false /\
+    SV.op_ge_shipped a b = false /\ StdSV.op_ge a b = true /\
+    SV.op_gt_shipped a b = false /\ StdSV.op_gt a b = true /\
+    SV.op_le_shipped a b = true /\ StdSV.op_le a b = false.
+Proof. exact op_lt_shipped_refuted. Qed.
+Print Assumptions C18_relational_shipped_refuted.
+
+Theorem C18_compare3_shipped_refuted :
+  exists h pos1 n1 x, size h <= npos /\
+    SV.compare3_shipped h pos1 n1 x = Terminate /\ StdSV.compare3 h pos1 n1 x = OutOfRange.
+Proof. exact compare3_shipped_refuted. Qed.
+Print Assumptions C18_compare3_shipped_refuted.
